@@ -84,6 +84,8 @@ THEOREMS = {
         "C15_iter_calls", "C15_no_double_fire", "C15_deadline_not_postponed", "C15_recovers",
         "C15_no_spin_on_spurious_empty", "C15_spurious_empty_spins_unrepaired", "C15_no_spin_on_empty_pop",
         "C15_empty_pop_spins_unrepaired", "C15_honest_empty_pop", "C15_empty_queue_keeps_polling"]] +
+           # the rate clause at full strength is FALSE for the loop's read-only calls Size()/Head() under interrupts: proved refutation (known finding F4)
+           [("QuartzModel.Theorems.C15F4", "Faults.C15_size_retry_full_fails")] +
            [("QuartzModel.Proofs.FaultsLemmas", "Faults.no_tick_before"), ("QuartzModel.Proofs.FaultsLemmas", "Faults.runQ_nodup"),
             ("QuartzModel.Proofs.FaultsLemmas", "Faults.iter_spurious"), ("QuartzModel.Proofs.FaultsLemmas", "Faults.backoff_after")],
     "C16": [("QuartzModel.Theorems.MissingJobs", "Facts.missing_none_jobs")] + [("QuartzModel.Theorems.C16", "Jobs." + t) for t in [
